@@ -188,8 +188,9 @@ PROPS = {
                 "encoding/csv + getAmbArr + Atoi (ok / error / panic)",
     },
     "C12": {
-        "extra_imports": ["Gofasta.Lemmas.AggVariants", "Gofasta.Props.Pipes", "Gofasta.Lemmas.SchedProofs"],
-        "extra_theorems": ["Gofasta.Lemmas.Sched.reach_inv", "Gofasta.Lemmas.Sched.success_means_complete", "Gofasta.Lemmas.Sched.reorder_writer_in_order", "Gofasta.Lemmas.Sched.commutative_writer", "Gofasta.Lemmas.Sched.counting_writer", "Gofasta.Lemmas.Sched.no_deadlock", "Gofasta.Lemmas.Sched.maximal_run_returned", "Gofasta.Lemmas.Sched.terminates", "Gofasta.Lemmas.Sched.run_length_le", "Gofasta.Lemmas.Sched.runSchedule_returns", "Gofasta.Lemmas.Sched.error_reported", "Gofasta.Lemmas.Sched.maximal_run_error", "Gofasta.Lemmas.Sched.error_has_source", "Gofasta.Lemmas.Sched.no_spurious_error", "Gofasta.Lemmas.Sched.maximal_run_success", "Gofasta.Lemmas.Sched.no_panic", "Gofasta.Lemmas.Sched.no_send_on_closed", "Gofasta.Lemmas.Sched.close_once", "Gofasta.Lemmas.Sched.buffers_bounded",
+        "extra_imports": ["Gofasta.Lemmas.AggVariants", "Gofasta.Props.Pipes", "Gofasta.Lemmas.SchedProofs", "Gofasta.Lemmas.SchedChainProofs"],
+        "extra_theorems": ["Gofasta.Lemmas.SchedChain.reach_inv", "Gofasta.Lemmas.SchedChain.chain_success_means_complete", "Gofasta.Lemmas.SchedChain.chain_reorder_writer_in_order", "Gofasta.Lemmas.SchedChain.chain_commutative_writer", "Gofasta.Lemmas.SchedChain.chain_no_deadlock", "Gofasta.Lemmas.SchedChain.chain_terminates", "Gofasta.Lemmas.SchedChain.chain_maximal_run_returned", "Gofasta.Lemmas.SchedChain.chain_error_reported", "Gofasta.Lemmas.SchedChain.chain_maximal_run_error", "Gofasta.Lemmas.SchedChain.chain_error_has_source", "Gofasta.Lemmas.SchedChain.chain_no_spurious_error", "Gofasta.Lemmas.SchedChain.chain_maximal_run_success", "Gofasta.Lemmas.SchedChain.chain_no_panic", "Gofasta.Lemmas.SchedChain.chain_no_send_on_closed", "Gofasta.Lemmas.SchedChain.chain_no_sender_on_closed", "Gofasta.Lemmas.SchedChain.chain_buffers_bounded", "Gofasta.Lemmas.SchedChain.chain_closed_prefix", "Gofasta.Lemmas.SchedChain.runSchedule_returns", "Gofasta.Lemmas.SchedChain.OnePool.chain_one_pool_agrees", "Gofasta.Lemmas.SchedChain.OnePool.chain_one_pool_outcomes",
+                           "Gofasta.Lemmas.Sched.reach_inv", "Gofasta.Lemmas.Sched.success_means_complete", "Gofasta.Lemmas.Sched.reorder_writer_in_order", "Gofasta.Lemmas.Sched.commutative_writer", "Gofasta.Lemmas.Sched.counting_writer", "Gofasta.Lemmas.Sched.no_deadlock", "Gofasta.Lemmas.Sched.maximal_run_returned", "Gofasta.Lemmas.Sched.terminates", "Gofasta.Lemmas.Sched.run_length_le", "Gofasta.Lemmas.Sched.runSchedule_returns", "Gofasta.Lemmas.Sched.error_reported", "Gofasta.Lemmas.Sched.maximal_run_error", "Gofasta.Lemmas.Sched.error_has_source", "Gofasta.Lemmas.Sched.no_spurious_error", "Gofasta.Lemmas.Sched.maximal_run_success", "Gofasta.Lemmas.Sched.no_panic", "Gofasta.Lemmas.Sched.no_send_on_closed", "Gofasta.Lemmas.Sched.close_once", "Gofasta.Lemmas.Sched.buffers_bounded",
                            "Gofasta.Props.Pipes.drivers_conform", "Gofasta.Props.Pipes.inner_error_arms", "Gofasta.Lemmas.AggVariants.variants_aggregate_model_deterministic", "Gofasta.Lemmas.AggVariants.variants_aggregate_any_order",
                            "Gofasta.Lemmas.AggVariants.aggLt_not_swo", "Gofasta.Lemmas.AggVariants.tie_hypothesis_needed"],
         "streams": {"C12": (64, 400), "C12sched": (400, 4000)},
@@ -207,8 +208,8 @@ PROPS = {
                 "capacities of the regenerated driver shape",
     },
     "C18": {
-        "extra_imports": ["Gofasta.Lemmas.Refusals", "Gofasta.Props.Cli", "Gofasta.Props.Pipes", "Gofasta.Lemmas.SchedProofs"],
-        "extra_theorems": ["Gofasta.Lemmas.Sched.error_reported", "Gofasta.Lemmas.Sched.maximal_run_error", "Gofasta.Lemmas.Sched.no_deadlock", "Gofasta.Props.Pipes.drivers_conform", "Gofasta.Lemmas.Refusals.fails_unequal_rows", "Gofasta.Lemmas.Refusals.readFasta_unequal_rows", "Gofasta.Lemmas.Refusals.readFasta_ok_widths", "Gofasta.Lemmas.Refusals.trailing_header_refused", "Gofasta.Lemmas.Refusals.trailing_header_commands_refused", "Gofasta.Lemmas.Refusals.fails_trailing_header", "Gofasta.Lemmas.Refusals.fails_single_header", "Gofasta.Lemmas.Refusals.snpsOnText_error_iff", "Gofasta.Lemmas.Refusals.listOnText_error_iff", "Gofasta.Lemmas.Refusals.trOnText_error_iff", "Gofasta.Lemmas.Refusals.closestOnText_error_iff", "Gofasta.Lemmas.Refusals.varCommand_error_iff", "Gofasta.Lemmas.Refusals.snpsOnText_valid", "Gofasta.Lemmas.Refusals.listOnText_valid", "Gofasta.Lemmas.Refusals.trOnText_valid", "Gofasta.Lemmas.Refusals.checkArgs_none_iff", "Gofasta.Props.Cli.topranking_defaults", "Gofasta.Props.Cli.window_defaults"],
+        "extra_imports": ["Gofasta.Lemmas.Refusals", "Gofasta.Props.Cli", "Gofasta.Props.Pipes", "Gofasta.Lemmas.SchedProofs", "Gofasta.Lemmas.SchedChainProofs"],
+        "extra_theorems": ["Gofasta.Lemmas.SchedChain.chain_error_reported", "Gofasta.Lemmas.SchedChain.chain_no_deadlock", "Gofasta.Lemmas.Sched.error_reported", "Gofasta.Lemmas.Sched.maximal_run_error", "Gofasta.Lemmas.Sched.no_deadlock", "Gofasta.Props.Pipes.drivers_conform", "Gofasta.Lemmas.Refusals.fails_unequal_rows", "Gofasta.Lemmas.Refusals.readFasta_unequal_rows", "Gofasta.Lemmas.Refusals.readFasta_ok_widths", "Gofasta.Lemmas.Refusals.trailing_header_refused", "Gofasta.Lemmas.Refusals.trailing_header_commands_refused", "Gofasta.Lemmas.Refusals.fails_trailing_header", "Gofasta.Lemmas.Refusals.fails_single_header", "Gofasta.Lemmas.Refusals.snpsOnText_error_iff", "Gofasta.Lemmas.Refusals.listOnText_error_iff", "Gofasta.Lemmas.Refusals.trOnText_error_iff", "Gofasta.Lemmas.Refusals.closestOnText_error_iff", "Gofasta.Lemmas.Refusals.varCommand_error_iff", "Gofasta.Lemmas.Refusals.snpsOnText_valid", "Gofasta.Lemmas.Refusals.listOnText_valid", "Gofasta.Lemmas.Refusals.trOnText_valid", "Gofasta.Lemmas.Refusals.checkArgs_none_iff", "Gofasta.Props.Cli.topranking_defaults", "Gofasta.Props.Cli.window_defaults"],
         "streams": {"C18": (500, 4000)},
         "thorough_seeds": 3,
         "cli": True,
@@ -219,8 +220,8 @@ PROPS = {
                 "required: non-zero exit within 10 s",
     },
     "C19": {
-        "extra_imports": ["Gofasta.Props.Pipes", "Gofasta.Lemmas.SchedProofs"],
-        "extra_theorems": ["Gofasta.Props.Pipes.drivers_conform", "Gofasta.Lemmas.Sched.error_reported", "Gofasta.Lemmas.Sched.maximal_run_error", "Gofasta.Lemmas.Sched.no_deadlock"],
+        "extra_imports": ["Gofasta.Props.Pipes", "Gofasta.Lemmas.SchedProofs", "Gofasta.Lemmas.SchedChainProofs"],
+        "extra_theorems": ["Gofasta.Props.Pipes.drivers_conform", "Gofasta.Lemmas.SchedChain.chain_error_reported", "Gofasta.Lemmas.SchedChain.chain_no_deadlock", "Gofasta.Lemmas.Sched.error_reported", "Gofasta.Lemmas.Sched.maximal_run_error", "Gofasta.Lemmas.Sched.no_deadlock"],
         "streams": {"C19": (250, 2500)},
         "thorough_seeds": 3,
         "cli": True,
